@@ -25,7 +25,8 @@ def _grids(tier):
     one = [[1], [2], [3]] if tier == 'quick' else [[1], [2], [3], [4], [5]]
     rng = (1, 2, 3) if tier == 'quick' else (1, 2, 3, 4)
     two = [[a, b] for a in rng for b in rng if a * b <= 16]
-    return one + two
+    three = [[1, 2, 2], [2, 1, 2], [2, 2, 1], [2, 2, 2], [1, 1, 2], [1, 3, 2]] + ([[2, 1, 3], [3, 2, 1], [1, 2, 1], [2, 3, 2]] if tier == 'thorough' else [])
+    return one + two + three
 
 
 def _needs(layouts, nprocs):
